@@ -71,3 +71,27 @@ Definition has_effects (g : graph) (t : nat) : bool :=
   | Some f => f_effects f || g_ignore_dce g
   | None => true
   end.
+
+(* all (source index, part index, part) triples of the JS files *)
+Fixpoint parts_from (s i : nat) (ps : list part) : list (nat * nat * part) :=
+  match ps with
+  | [] => []
+  | p :: r => (s, i, p) :: parts_from s (S i) r
+  end.
+Fixpoint files_from (s : nat) (fs : list file) : list (nat * nat * part) :=
+  match fs with
+  | [] => []
+  | f :: r => (match f_repr f with RJS => parts_from s 0 (f_parts f) | _ => [] end) ++ files_from (S s) r
+  end.
+Definition all_parts (g : graph) : list (nat * nat * part) := files_from 0 (g_files g).
+
+
+(* one entry of JSRepr.Meta.ImportsToBind together with the parts that use the
+   import (NamedImports[ref].LocalPartsWithUses) *)
+Record binding := mkBinding {
+  b_file : nat;                    (* the importing file *)
+  b_users : list nat;              (* its parts that use the import *)
+  b_target_file : nat;             (* importData.SourceIndex *)
+  b_target : sym;                  (* importData.Ref (links followed) *)
+  b_reexports : list (nat * nat)   (* importData.ReExports: the re-export statements on the chain *)
+}.
